@@ -6,6 +6,16 @@ import json, os, subprocess, sys, glob, re
 from concurrent.futures import ThreadPoolExecutor
 HERE=os.path.dirname(os.path.dirname(os.path.abspath(__file__)))
 ids=sorted(os.path.basename(d) for d in glob.glob(os.path.join(HERE,'seeded','C*-m*')))
+# SEEDED_ONLY=<regex>: run only the matching ids and keep the other rows of RESULTS.md as they are
+only=os.environ.get('SEEDED_ONLY')
+kept={}
+if only:
+    p=os.path.join(HERE,'seeded','RESULTS.md')
+    if os.path.exists(p):
+        for l in open(p):
+            m=re.match(r'\| (C\d+-m\d+) \|',l)
+            if m and not re.search(only,m.group(1)): kept[m.group(1)]=l
+    ids=[i for i in ids if re.search(only,i)]
 def run(i):
     meta=json.load(open(os.path.join(HERE,'seeded',i,'meta.json')))
     if meta.get('neutralised_by'):
@@ -29,6 +39,10 @@ for i in ids:
     rows.append((i,m.get('title','').replace('|','/'),str(m.get('what_it_needs_to_manifest','')).replace('|','/').replace('\n',' ')[:260],status,(nk.group(1) if nk else '0'),key.replace('|','\\|')[:160]))
 with open(os.path.join(HERE,'seeded','RESULTS.md'),'w') as f:
     f.write('| id | change | needs to manifest | quick check | keys | first finding key |\n|---|---|---|---|---|---|\n')
-    for r in rows: f.write('| '+' | '.join(r)+' |\n')
+    lines={r[0]:'| '+' | '.join(r)+' |\n' for r in rows}
+    lines.update(kept)
+    def key(i):
+        a,b=i.split('-m'); return (a,int(b))
+    for i in sorted(lines,key=key): f.write(lines[i])
 print('\n'.join('%s %s'%(r[0],r[3]) for r in rows))
 print('missed:',[r[0] for r in rows if r[3] not in ('DETECTED','NEUTRALISED')])
